@@ -347,6 +347,13 @@ impl C17 {
             VTamper::VersionDelta(d) => (key.to_string(), version_i.wrapping_add(*d as i64) & i64::MAX, stored.clone()),
             VTamper::SwapWith { key: ok, version: ov, value: oval } => {
                 let ovi = (*ov & (u64::MAX >> 1)) as i64;
+                if ok == key && ovi == version_i {
+                    // not a forgery: the "other" record would have been written by the signer
+                    // under the very same key and version, which a signer never does (every
+                    // write bumps the version), so there is nothing to tell apart
+                    st.class("skipped:swap-with-same-key-and-version");
+                    return Ok(());
+                }
                 (key.to_string(), version_i, put(ok, ovi, oval))
             }
             VTamper::Truncate(n) => {
